@@ -62,7 +62,7 @@ class WorldC06(World):
     STATE_RULE = 'per path: (absent | undefined | which file kind it holds), number of models, writes so far bucket'
     PROBES = ('gas-reaction-in-mechanism', 'adsorption-reaction', 'surface-reaction-with-ts', 'surface-reaction-without-ts',
               'two-or-three-sites', 'stoich-2-or-3', 'text-path', 'file-path', 'crlf-newline', 'cr-newline', 'overwrite',
-              'write-after-failed-write', 'recovery-after-fault', 'write-through-symlink', 'relative-name-in-case-directory', 'alloc-failure-signalled', 'alloc-failure-over-existing-file', 'read-back-gas', 'read-back-surf', 'read-of-torn-file',
+              'write-after-failed-write', 'recovery-after-fault', 'write-through-symlink', 'reactions-looked-at-between-writes', 'relative-name-in-case-directory', 'alloc-failure-signalled', 'alloc-failure-over-existing-file', 'read-back-gas', 'read-back-surf', 'read-of-torn-file',
               'read-absent', 'fault-did-not-fire', 'clock-jump-before-write', 'same-model-written-twice',
               'dimensionless-activation', 'gibbs-activation', 'eight-conditions', 'custom-delimiters',
               'mole-fraction-missing-species', 'EA-gas', 'EA-surface', 'reactants-gas-products-surface',
@@ -240,6 +240,14 @@ class WorldC06(World):
             return op
         side = side_stream(rng)
         op = self._gen_op0(rng)
+        if op is not None and self.models and side.random() < 0.07:
+            # between two writes the caller looks at its reactions: prints them, compares them, serialises them
+            return {'c': 0, 'op': 'touch', 'gc': True, 'args': {
+                'model': side.choice(sorted(self.models)),
+                'calls': [[side.choice(['str', 'to_dict', 'eq', 'to_string', 'to_string']),
+                           {'stoich_format': side.choice(['.0f', '.1f', '.2f']), 'species_delimiter': side.choice(['+', ' + ']),
+                            'reaction_delimiter': side.choice(['=', '<=>', ' = ']), 'include_TS': side.random() < 0.7}]
+                          for _ in range(side.randint(1, 3))]}}
         if op is not None and op['op'].startswith('write_') and op['args'].get('opts', {}).get('to_file') \
                 and op.get('fault') is None and side.random() < 0.12:
             op['args']['link'] = True
@@ -738,6 +746,23 @@ class WorldC06(World):
         if a['model'] not in self.models:
             raise Skip()
         md = self.models[a['model']]
+        if name == 'touch':
+            rx = self.live[a['model']]['reactions']
+            try:
+                for what, kw in a['calls']:
+                    for i_, r_ in enumerate(rx):
+                        if what == 'str':
+                            str(r_)
+                        elif what == 'to_dict':
+                            r_.to_dict()
+                        elif what == 'eq':
+                            r_ == rx[(i_ + 1) % len(rx)]
+                        else:
+                            r_.to_string(**kw)
+            except Exception:
+                raise Skip()           # whether these calls work is not this property's business
+            ctx.probe('reactions-looked-at-between-writes')
+            return 'touched'
         live = self.live[a['model']]
         o = a['opts']
         what = '%s(model %d)' % (name, a['model'])
